@@ -30,6 +30,7 @@ USER_GDEF = {
 CARET_NAMES = ["caret_1", "caret_2", "caret_3", "caret_4", "vcaret_1", "vcaret_2"]
 CARET_COORDS = [100, 300, 300.5, 50, 0, -40]
 CURS_GLYPHS = [("a", 0x61), ("beh-ar", 0x628), ("period", 0x2E), ("x.alt", None)]
+# (a second unencoded alternate "y.alt" exists only in the two-rule designspace states)
 CURS_SHAPES = ["none", "entry", "exit", "both", "ltr", "rtl", "swsh"]  # swsh: entry.swsh + exit.swsh
 ENTRY, EXIT = (0, 10.5), (500.5, -0.5)
 
@@ -93,7 +94,7 @@ class C18(Property):
                 continue  # x.alt must carry cursive anchors for the rule to matter
             if combo[2] != 0 and b["tier"] == "quick":
                 continue
-            for rule in (False, True):
+            for rule in (False, True, 2):
                 out.append([{"part": "curs", "shapes": list(combo), "gsub": False, "ds_rule": rule, "ds": True}])
                 out.append([{"part": "curs", "shapes": list(combo), "gsub": False, "ds_rule": rule, "ds": "var"}])
         return out
@@ -211,6 +212,16 @@ class C18(Property):
             import ufo2ft
             rules = [{"name": "r", "conditionSets": [[{"name": "Weight", "minimum": 600, "maximum": 700}]],
                       "subs": [("a", "x.alt")]}] if c["ds_rule"] else None
+            if c["ds_rule"] == 2:
+                # two rules substitute the SAME glyph by two different alternates; y.alt copies x.alt
+                glyphs["y.alt"] = {"width": 500, "contours": [B.box(10, 0, 90, 100)],
+                                   "anchors": list(glyphs["x.alt"]["anchors"])}
+                shapes["y.alt"] = shapes["x.alt"]
+                spec["order"] = list(glyphs)
+                rules = [{"name": "r1", "conditionSets": [[{"name": "Weight", "minimum": 500, "maximum": 600}]],
+                          "subs": [("a", "x.alt")]},
+                         {"name": "r2", "conditionSets": [[{"name": "Weight", "minimum": 600, "maximum": 700}]],
+                          "subs": [("a", "y.alt")]}]
             spec2 = dict(spec, info={"styleName": "Bold"})
             ds = B.build_designspace([{"name": "Weight", "tag": "wght", "min": 400, "default": 400, "max": 700}],
                                      [{"spec": spec, "location": {"Weight": 400}},
@@ -225,12 +236,13 @@ class C18(Property):
         lay = O.Layout(tt)
         recs = lay.cursive_records()
         rE, rX = (otround(ENTRY[0]), otround(ENTRY[1])), (otround(EXIT[0]), otround(EXIT[1]))
-        ltr_glyphs = {"a"} | ({"x.alt"} if c["gsub"] or c.get("ds_rule") else set())
+        ltr_glyphs = {"a"} | ({"x.alt"} if c["gsub"] or c.get("ds_rule") else set()) | \
+            ({"y.alt"} if c.get("ds_rule") == 2 else set())
         has_entry = any(s in ("entry", "both") for s in shapes.values())
         has_exit = any(s in ("exit", "both") for s in shapes.values())
         viols = []
         feat = {"gsub": c["gsub"], "nolatin": bool(c.get("nolatin")), "ds": c.get("ds") or False,
-                "ds_rule": bool(c.get("ds_rule"))}
+                "ds_rule": int(c.get("ds_rule") or 0)}
         # expected records: (glyph, entry, exit, rtl flag)
         want = set()
         for n, sh in shapes.items():
